@@ -37,6 +37,7 @@ func VerifC03_a5_coll_result() {
 	if len(x.w.encoded) != 1 {
 		return
 	}
+	verifAssert("openapi:response-conforms", verifSchemaAccepts(openapiDoc, "POST /coll", map[string]any{"response:200": x.w.encoded[0]}))
 	out, err := client.DecodeCollResponse(func(*http.Response) goahttp.Decoder {
 		return stubDecoder{func(v any) error { return verifJSONCopy(v, x.w.encoded[0]) }}
 	}, false)(a5Response(x))
@@ -89,6 +90,7 @@ func VerifC03_a5_tagged_body() {
 		// a nil item under the tagged response has no body to encode
 		return
 	}
+	verifAssert("openapi:response-conforms", verifSchemaAccepts(openapiDoc, "POST /make", map[string]any{"response:" + itoa(x.w.status): x.w.encoded[0]}))
 	out, derr := client.DecodeMakeResponse(func(*http.Response) goahttp.Decoder {
 		return stubDecoder{func(v any) error { return verifJSONCopy(v, x.w.encoded[0]) }}
 	}, false)(a5Response(x))
